@@ -27,11 +27,13 @@
    Distances are an abstract totally ordered type; the executable model uses Z (the harness maps
    the float64 distances to order-preserving integers).
 
-   Abstraction (stated, not hidden): the library's queue is a binary min-heap on `dist`; the model's
-   queue is a list whose pop removes the first entry of minimal key.  Both return an entry of
-   minimal key; they may differ in which one among entries of *equal* key.  The theorems hold for
-   any pop with the two properties in KnnProofs.pop_min_spec; the harness compares distance
-   sequences and id sets per distinct distance, never the order inside a tie. *)
+   The queue discipline is a parameter of the traversal (qpush / qpop).  Two disciplines are
+   given: `list_push` / `pop_min` (a list whose pop removes the first entry of minimal key) and
+   `heap_push` / `heap_pop`, a transcription of the library's binary min-heap (push: append and
+   sift up while nodes[parent].dist > nodes[i].dist; pop: move the last entry to the root and sift
+   down preferring a child whose dist is <= the current smallest).  The theorems hold for every
+   discipline that satisfies KnnProofs.queue_ok (push adds the entry, pop returns an entry of
+   minimal key and leaves the others); they never depend on the order inside a tie. *)
 From Coq Require Import List NArith ZArith Bool.
 From T38 Require Import Model.Cursor.
 Import ListNotations.
@@ -69,10 +71,89 @@ Section Knn.
         end
     end.
 
+  Definition list_push (q : queue) (e : qnode) : queue := q ++ [e].
+
+  (* ---- the library's queue: a binary min-heap in a slice ----
+     func (q *queue) push(node) {
+       q = append(q, node); nodes := q; i := len(nodes) - 1; parent := (i - 1) / 2
+       for ; i != 0 && nodes[parent].dist > nodes[i].dist; parent = (i - 1) / 2 {
+         nodes[parent], nodes[i] = nodes[i], nodes[parent]; i = parent } }
+     func (q *queue) pop() (qnode, bool) {
+       if len(nodes) == 0 { return _, false }
+       n, nodes[0] = nodes[0], nodes[len-1]; nodes = nodes[:len-1]; i := 0
+       for { smallest := i; left := i*2 + 1; right := i*2 + 2
+             if left < len(nodes) && nodes[left].dist <= nodes[smallest].dist { smallest = left }
+             if right < len(nodes) && nodes[right].dist <= nodes[smallest].dist { smallest = right }
+             if smallest == i { break }
+             nodes[smallest], nodes[i] = nodes[i], nodes[smallest]; i = smallest }
+       return n, true }
+     Every index the Go code uses is below len(nodes) by its own guards (parent < i, left/right are
+     tested), so no slice access can panic; the `None` arms below are unreachable. *)
+  Fixpoint set_nth (l : queue) (i : nat) (x : qnode) : queue :=
+    match l, i with
+    | [], _ => []
+    | _ :: r, O => x :: r
+    | y :: r, Datatypes.S i' => y :: set_nth r i' x
+    end.
+  Definition swap_nth (l : queue) (i j : nat) : queue :=
+    match nth_error l i, nth_error l j with
+    | Some a, Some b => set_nth (set_nth l i b) j a
+    | _, _ => l
+    end.
+  Definition key_at (l : queue) (i : nat) : option Z := option_map fst (nth_error l i).
+
+  Fixpoint sift_up (fuel : nat) (nodes : queue) (i : nat) : queue :=
+    match fuel with
+    | O => nodes
+    | Datatypes.S fuel' =>
+        if Nat.eqb i 0 then nodes
+        else
+          let parent := Nat.div (i - 1) 2 in
+          match key_at nodes parent, key_at nodes i with
+          | Some kp, Some ki =>
+              if (ki <? kp)%Z then sift_up fuel' (swap_nth nodes parent i) parent else nodes
+          | _, _ => nodes
+          end
+    end.
+  Definition heap_push (q : queue) (e : qnode) : queue :=
+    let nodes := q ++ [e] in sift_up (length nodes) nodes (length nodes - 1).
+
+  Fixpoint sift_down (fuel : nat) (nodes : queue) (i : nat) : queue :=
+    match fuel with
+    | O => nodes
+    | Datatypes.S fuel' =>
+        let left := (i * 2 + 1)%nat in
+        let right := (i * 2 + 2)%nat in
+        let smallest :=
+          match key_at nodes left, key_at nodes i with
+          | Some kl, Some ks => if (kl <=? ks)%Z then left else i
+          | _, _ => i
+          end in
+        let smallest :=
+          match key_at nodes right, key_at nodes smallest with
+          | Some kr, Some ks => if (kr <=? ks)%Z then right else smallest
+          | _, _ => smallest
+          end in
+        if Nat.eqb smallest i then nodes
+        else sift_down fuel' (swap_nth nodes smallest i) smallest
+    end.
+  Definition heap_pop (q : queue) : option (qnode * queue) :=
+    match q with
+    | [] => None
+    | n :: _ =>
+        let nodes := removelast (set_nth q 0 (last q n)) in
+        Some (n, sift_down (length nodes) nodes 0)
+    end.
+
+  (* ---- the traversal, for any queue discipline ---- *)
+  Variable qpush : queue -> qnode -> queue.
+  Variable qpop : queue -> option (qnode * queue).
+
+  Definition push_all (q : queue) (es : list qnode) : queue := fold_left qpush es q.
   Definition push_items (q : queue) (items : list (R * I)) : queue :=
-    q ++ map (fun ri => (dist_item (snd ri), QItem (snd ri))) items.
+    push_all q (map (fun ri => (dist_item (snd ri), QItem (snd ri))) items).
   Definition push_children (q : queue) (children : list (R * tree)) : queue :=
-    q ++ map (fun rc => (dist_rect (fst rc), QNode (snd rc))) children.
+    push_all q (map (fun rc => (dist_rect (fst rc), QNode (snd rc))) children).
 
   (* the loop, with the caller's iterator as a state-passing callback returning keep-going *)
   Fixpoint knn_loop {S : Type} (fuel : nat) (q : queue) (iter : S -> I -> Z -> S * bool) (s : S)
@@ -80,7 +161,7 @@ Section Knn.
     match fuel with
     | O => OutOfFuel
     | Datatypes.S fuel' =>
-        match pop_min q with
+        match qpop q with
         | None => Done s
         | Some ((k, QItem i), q') =>
             let '(s', keep) := iter s i k in
@@ -95,7 +176,7 @@ Section Knn.
     match fuel with
     | O => OutOfFuel
     | Datatypes.S fuel' =>
-        match pop_min q with
+        match qpop q with
         | None => Done []
         | Some ((k, QItem i), q') =>
             match knn_order fuel' q' with
@@ -136,7 +217,7 @@ Section Knn.
   Definition start_queue (root : option tree) : queue :=
     match root with
     | None => []
-    | Some t => [(0%Z, QNode t)]
+    | Some t => qpush [] (0%Z, QNode t)
     end.
 
   Definition knn (root : option tree) : fuelled (list (I * Z)) :=
